@@ -99,3 +99,23 @@ WITNESSES = {
     'lang:runtime-overflow': prog([fn(0, [], 'int', seq(('let', False, 1, 'int', N(9223372036854775807)), P(('bin', 'add', V(1), N(1))),
                                                         P(('bin', 'mul', V(1), V(1))), P(('un', 'neg', ('bin', 'sub', ('un', 'neg', V(1)), N(1)))), ('ret', N(0))))]),
 }
+
+# ---- strings as computed values: operands outside the domain on which the two engines agree (the reference faults there:
+# Lang/Ref.v FStrDomain, so these are C01 findings: engine against engine)
+_S = lambda b: ('str', b)
+WITNESSES.update({
+    # char_at outside 0 <= i < length: VM -1, native 0 and a message on stderr (STDLIB: "Error if index out of bounds"; SPECIFICATION: nothing)
+    'lang:char-at-out-of-range': prog([fn(0, [], 'int', seq(P(('s2', 'charat', _S(b'abc'), N(3))), P(('s2', 'charat', _S(b'abc'), N(-1))), ('ret', N(0))))]),
+    # str_substring: the VM narrows start and length to 32 bits unsigned (start 2^32+1 reads from 1, length -1 is 2^32-1: the rest of
+    # the string); native computes in int64 and answers "" for both
+    'lang:str-substring-u32': prog([fn(0, [], 'int', seq(P(('s2', 'plus', _S(b'<'), ('s2', 'plus', ('substr', _S(b'hello'), N(4294967297), N(2)), _S(b'>')))),
+                                                        P(('s2', 'plus', _S(b'<'), ('s2', 'plus', ('substr', _S(b'hello'), N(1), N(-1)), _S(b'>')))), ('ret', N(0))))]),
+})
+
+# replayed on the two real engines only (C01): the extracted models recurse over strings as lists, 2^20 bytes deep
+ENGINE_WITNESSES = {
+    # native string helpers measure their operands with strnlen(s, 1 MiB): a 2 MiB string + "b" has length 1048577 natively, 2097153 on the VM
+    'lang:native-string-1mib': prog([fn(0, [], 'int', seq(('let', True, 1, 'str', _S(b'abcdefgh' * 128)),
+                                                         ('for', 2, N(0), N(11), ('set', 1, ('s2', 'plus', V(1), V(1)))),
+                                                         P(('s1', 'len', V(1))), P(('s1', 'len', ('s2', 'plus', V(1), _S(b'b')))), ('ret', N(0))))]),
+}
